@@ -477,6 +477,72 @@ func (v *Verifier) intrinsic(fr *Frame, st *State, full string, fn *types.Func, 
 		st.assume(v.iLe(n, p.Len))
 		res := fn.Type().(*types.Signature).Results()
 		return TupleVal{[]Val{v.intVal(n), OpaqueVal{Sh: v.eng.shapeOf(res.At(1).Type()), ID: c.Fresh("err", IntSort), Nil: c.Fresh("read$ok", BoolSort)}}}, true
+	case "(*bytes.Buffer).Write", "(*bytes.Buffer).Len", "(*bytes.Buffer).Bytes", "(*bytes.Buffer).WriteByte":
+		// bytes.Buffer that is only written: a byte log (sent/sentByte of the buffer's identity);
+		// Len() is its length, Bytes() a fresh copy of it. Reading from the buffer is not modelled.
+		use()
+		v.needIntIdx(pos, "bytes.Buffer model")
+		id := v.ptrIdentity(recv, pos)
+		lenH := v.ghostHeap(st, gChanLen)
+		switch fn.Name() {
+		case "Write":
+			p := args[0].(SliceVal)
+			v.logAppend(st, id, p)
+			res := fn.Type().(*types.Signature).Results()
+			return TupleVal{[]Val{v.intVal(p.Len), OpaqueVal{Sh: v.eng.shapeOf(res.At(1).Type()), ID: c.Inti(0), Nil: c.True()}}}, true
+		case "WriteByte":
+			return nil, false
+		case "Len":
+			return v.intVal(v.nonNeg(c.Select(lenH, id))), true
+		default: // Bytes
+			sh := v.eng.shapeOf(fn.Type().(*types.Signature).Results().At(0).Type())
+			n := v.nonNeg(c.Select(lenH, id))
+			ref := v.freshRef(st)
+			row := c.Select(v.ghostHeap(st, gChanData), id)
+			v.eng.heapSetRows(st, sh.Elem, ref, []*Term{row})
+			return SliceVal{Sh: sh, Ref: ref, Off: c.Inti(0), Len: n, Cap: n}, true
+		}
+	case "bytes.NewReader":
+		// a reader over b: the input stream of its identity is the content of b (ghost inByte), exact length
+		use()
+		v.needIntIdx(pos, "bytes.Reader model")
+		b := args[0].(SliceVal)
+		sh := v.eng.shapeOf(fn.Type().(*types.Signature).Results().At(0).Type())
+		ref := v.freshRef(st)
+		rd := PtrVal{Sh: sh, Ref: ref, Nil: c.False()}
+		k := c.Bound("k", IntSort)
+		row := v.eng.heapRows(st, byteSh, b.Ref)[0]
+		st.assume(c.Forall([]*Term{k}, c.Implies(c.And(c.ILe(c.Inti(0), k), c.ILt(k, b.Len)),
+			c.Eq(c.App("ghost$inByte", BVSort(8), ref, k), c.Select(row, c.IAdd(b.Off, k))))))
+		st.assume(c.Eq(c.App("ghost$rdLen", IntSort, ref), b.Len))
+		v.setGhostHeap(st, gRdPos, c.Store(v.ghostHeap(st, gRdPos), ref, c.Inti(0)))
+		return rd, true
+	case "(*bytes.Reader).Read", "(*bytes.Reader).Len":
+		use()
+		v.needIntIdx(pos, "bytes.Reader model")
+		id := v.ptrIdentity(recv, pos)
+		posH := v.ghostHeap(st, gRdPos)
+		pos0 := c.Select(posH, id)
+		total := c.App("ghost$rdLen", IntSort, id)
+		remaining := c.ISub(total, pos0)
+		if fn.Name() == "Len" {
+			return v.intVal(remaining), true
+		}
+		// Read(p): n = min(len(p), remaining) bytes are copied; io.EOF iff nothing remains (and len(p) > 0)
+		p := args[0].(SliceVal)
+		n := c.Ite(c.ILe(p.Len, remaining), p.Len, remaining)
+		old := v.eng.heapRows(st, byteSh, p.Ref)[0]
+		nr := c.Fresh("readrow", old.Sort)
+		j := c.Bound("j", IntSort)
+		rel := c.ISub(j, p.Off)
+		inData := c.And(c.ILe(p.Off, j), c.ILt(rel, n))
+		st.assume(c.Forall([]*Term{j}, c.Eq(c.Select(nr, j), c.Ite(inData, c.App("ghost$inByte", BVSort(8), id, c.IAdd(pos0, rel)), c.Select(old, j)))))
+		v.eng.heapSetRows(st, byteSh, p.Ref, []*Term{nr})
+		v.setGhostHeap(st, gRdPos, c.Store(posH, id, c.IAdd(pos0, n)))
+		res := fn.Type().(*types.Signature).Results()
+		eof := c.And(c.ILe(remaining, c.Inti(0)), c.ILt(c.Inti(0), p.Len))
+		err := OpaqueVal{Sh: v.eng.shapeOf(res.At(1).Type()), ID: c.Inti(-7), Nil: c.Not(eof)}
+		return TupleVal{[]Val{v.intVal(n), err}}, true
 	case "bytes.Equal":
 		// len(a) == len(b) && forall k < len(a): a[k] == b[k]
 		use()
@@ -524,6 +590,23 @@ func (v *Verifier) intrinsic(fr *Frame, st *State, full string, fn *types.Func, 
 		return Scalar{r, types.Typ[types.Int]}, true
 	}
 	return nil, false
+}
+
+// ptrIdentity: an integer identity for the object a pointer refers to (the reference of a heap
+// object, or a constant derived from the cell of a local variable whose address is taken).
+func (v *Verifier) ptrIdentity(recv Val, pos token.Pos) *Term {
+	switch o := recv.(type) {
+	case OpaqueVal:
+		return o.ID
+	case PtrVal:
+		if o.Loc == nil {
+			return o.Ref
+		}
+		if vl, ok := o.Loc.(VarLoc); ok {
+			return v.eng.C.Inti(localIDBase - int64(vl.C.id))
+		}
+	}
+	panic(unsupportedf(pos, "object has no identity"))
 }
 
 // havocRange replaces rows of sv.Ref in [lo, hi) by unknown values.
